@@ -666,3 +666,52 @@ Definition file_ok (api : apiD) (tab : modtab) (f : fileD) : bool :=
       && msgs_ok api (proto_names api f) tab (flat_map (decl_types pkgs) (emit_file api f)) (fd_pkg f) (fd_module f)
                  (enum_globals pkgs (fd_enums f) (initial_globals h)) (fd_msgs f)
   end.
+
+(* ------------------------------------------------------------------ selective generation: emitted classes and printed references
+   A class (message or enum, at any depth) is rendered only inside its outermost enclosing message, and
+   prune_messages_for_selective_generation keeps the top-level messages whose address is allow-listed: a class is EMITTED iff
+   the top-level class enclosing it is kept.  MessageType.add_to_address_allowlist adds a message with the types of its
+   fields, its nested enums and nested messages; API.build then adds the enclosing top-level message of every allow-listed
+   nested type until nothing changes.  [closed] states what that fixed point guarantees (per class: descendants of a kept
+   top-level class are kept; a kept class has its enclosing top-level class and the package-local types of its fields kept). *)
+Local Open Scope list_scope.
+Definition top_of (a : addr) : addr :=
+  match a_parent a with [] => a | p :: _ => mkAddr (a_pkg a) (a_module a) [] p end.
+Definition cls := (addr * list addr)%type.
+Fixpoint msg_cls (pkg : list string) (module : string) (parent : list string) (m : msgD) : list cls :=
+  let 'Msg n fs _ ns es _ := m in
+  ((mkAddr pkg module parent n, field_refs m)
+   :: map (fun e => (mkAddr pkg module (parent ++ [n]) (e_name e), [])) es)
+  ++ (fix go (l : list msgD) : list cls :=
+        match l with [] => [] | x :: l' => msg_cls pkg module (parent ++ [n]) x ++ go l' end) ns.
+Definition file_cls (f : fileD) : list cls :=
+  map (fun e => (mkAddr (fd_pkg f) (fd_module f) [] (e_name e), [])) (fd_enums f)
+  ++ flat_map (msg_cls (fd_pkg f) (fd_module f) []) (fd_msgs f).
+Definition in_kept (kept : list addr) (a : addr) : bool := existsb (addr_eqb a) kept.
+Definition emitted (kept : list addr) (a : addr) : bool := in_kept kept (top_of a).
+Definition local_ (decls : list cls) (r : addr) : bool := existsb (fun d => addr_eqb r (fst d)) decls.
+Definition closed_at (kept : list addr) (decls : list cls) (d : cls) : bool :=
+  implb (in_kept kept (top_of (fst d))) (in_kept kept (fst d))
+  && implb (in_kept kept (fst d))
+           (in_kept kept (top_of (fst d))
+            && forallb (fun r => implb (local_ decls r) (in_kept kept r)) (snd d)).
+Definition closed (kept : list addr) (decls : list cls) : bool := forallb (closed_at kept decls) decls.
+Definition printed_refs (kept : list addr) (decls : list cls) : list addr :=
+  flat_map (fun d : cls => if emitted kept (fst d) then filter (local_ decls) (snd d) else []) decls.
+(* the witness: rpc -> Outer.Mid only; Outer.inner : Other.Inner; Other.leaf : Third.Leaf *)
+Definition sx_pkg := ["google"; "example"; "v1"].
+Definition sx_ref (parent : list string) (n : string) := TRef KMsg (mkAddr sx_pkg "lib" parent n).
+Definition sx_file : fileD := mkFile sx_pkg "lib" []
+  [Msg "Third" [] [] [Msg "Leaf" [mkField "z" 1 (TScalar S_STRING) false None false] [] [] [] false] [] false;
+   Msg "Other" [mkField "leaf" 1 (sx_ref ["Third"] "Leaf") false None false] []
+       [Msg "Inner" [mkField "x" 1 (TScalar S_INT32) false None false] [] [] [] false] [] false;
+   Msg "Outer" [mkField "inner" 1 (sx_ref ["Other"] "Inner") false None false] []
+       [Msg "Mid" [mkField "y" 1 (TScalar S_INT32) false None false] [] [] [] false] [] false;
+   Msg "KeepRequest" [mkField "mid" 1 (sx_ref ["Outer"] "Mid") false None false] [] [] [] false;
+   Msg "DropRequest" [] [] [] [] false].
+Definition sx_a (parent : list string) (n : string) := mkAddr sx_pkg "lib" parent n.
+(* the fixed point of /repo's loop *)
+Definition sx_kept_fix := [sx_a [] "KeepRequest"; sx_a ["Outer"] "Mid"; sx_a [] "Outer"; sx_a ["Other"] "Inner"; sx_a [] "Other";
+                           sx_a ["Third"] "Leaf"; sx_a [] "Third"].
+(* one sweep of the enclosing-message rule only *)
+Definition sx_kept_once := [sx_a [] "KeepRequest"; sx_a ["Outer"] "Mid"; sx_a [] "Outer"; sx_a ["Other"] "Inner"].
